@@ -235,6 +235,32 @@ fn check_linear<A: Alphabet, C: PositiveLength>(s: &[u8], op: &str) -> Result<()
     if StripedSequence::<A, C>::new(dm, r * C::USIZE + 1).is_ok() {
         return Err(format!("after {}: StripedSequence::new accepted a length above rows x columns", op));
     }
+    // a hand-built sequence over a taller matrix: the stripe height is the matrix row count
+    for extra in [1usize, 3] {
+        let tall: StripedSequence<A, C> = stripe_tall(s, extra);
+        if tall.len() != l || tall.wrap() != 0 || tall.matrix().rows() != r + extra {
+            return Err(format!("after {}: hand-built sequence over {} rows reports len {} wrap {} rows {}", op, r + extra, tall.len(), tall.wrap(), tall.matrix().rows()));
+        }
+        for i in 0..l {
+            if tall[i] != syms[i] {
+                return Err(format!("after {}: hand-built sequence over {} rows (needs {}): [{}] = {:?}, expected {:?}", op, r + extra, r, i, tall[i], syms[i]));
+            }
+        }
+        for j in 0..k {
+            let n = SymbolCount::<A>::count_symbol(&tall, sym::<A>(j as u8));
+            // the padding cells of the last column hold the wildcard and are not symbols of the sequence
+            if n != counts[j] {
+                return Err(format!("after {}: hand-built sequence over {} rows: count_symbol({}) = {}, linear count {}", op, r + extra, j, n, counts[j]));
+            }
+        }
+        let mut conf = tall.clone();
+        conf.configure_wrap(2);
+        for i in 0..l {
+            if conf[i] != syms[i] {
+                return Err(format!("after {}: hand-built sequence over {} rows, configured: [{}] = {:?}, expected {:?}", op, r + extra, i, conf[i], syms[i]));
+            }
+        }
+    }
     Ok(())
 }
 
